@@ -329,8 +329,10 @@ CLAIMED["C02"] = dict(
          "the large-x series of FSZ; the (y-x)^2, (x-1)^2 and (1,1) expansions of Fa, Fb, Ixy with all "
          "coefficients); the test that selects an equal-argument expansion is scale free; zero arguments "
          "return 0.",
-    note=TRUST + "NOT decided: the accuracy figures as numbers; phi_pos/phi_neg/luv (the dilogarithm/Clausen forms "
-         "of Phi) against Phi's definition; the limits inside phi_over_y; continuity between regimes beyond "
+    note=TRUST + "Also decided: for lambda^2 > 0, phi_pos is the Davydychev-Tausk form Phi[x,y,z] of ffunctions.m and its "
+         "small-argument expansions (l00, l0v, lv0, u = v) solve the defining quadratic to the stated order. NOT "
+         "decided: the accuracy figures as numbers; phi_neg (the Clausen form of Phi for lambda^2 < 0) against "
+         "Phi's definition; the limits inside phi_over_y; continuity between regimes beyond "
          "the verified expansion orders. One genuine defect (absolute equality test in Fa/Fb) was repaired.",
     ref="3 C02")
 
